@@ -175,6 +175,13 @@ def shrink(c):
             yield d
 
 
+# functions of the implementation this property is anchored in: their line coverage under the correspondence cases is
+# measured on the staged copy and reported in the evidence (implementation_line_coverage)
+ANCHORS = [
+    "datascope/importance/shapley.py:ShapleyImportance._shapley_bruteforce",
+    "datascope/utility/provenance.py:Provenance.query",
+]
+
 MANIFEST = {
     "text": "Proof: C03_bruteforce_is_shapley -- for every n, stored provenance, utility (any function of the selected "
             "rows, possibly failing) and null score the accumulating loop returns for unit i exactly "
